@@ -205,6 +205,7 @@ Definition on_resp (st : mstate) (c : conn) (id : nat) (ok : bool) (rs : rset) (
               finish_frame (set_client st c cl) c
           | None => st
           end
+      | (KSub | KGet), false => finish_frame st c     (* the request no longer retains anything *)
       | _, _ => st
       end
   end.
